@@ -41,6 +41,23 @@ pub struct Named {
     pub kind: Kind,
     #[serde(default, skip_serializing_if = "std::ops::Not::not")]
     pub hidden: bool,
+    /// value type of an argument (conversion failure of a present value fails the run)
+    #[serde(default = "ty_os")]
+    pub ty: Ty,
+    /// `adjacent`-restricted argument: name and value must share one item
+    #[serde(default, skip_serializing_if = "std::ops::Not::not")]
+    pub adjacent: bool,
+}
+fn ty_os() -> Ty {
+    Ty::Os
+}
+/// conversion of a raw value to the item's type, as the documentation describes it
+pub fn convert(ty: Ty, t: &Tok) -> Option<Val> {
+    match ty {
+        Ty::Os | Ty::Path => Some(Val::S(t.clone())),
+        Ty::Str => t.utf8().map(|_| Val::S(t.clone())),
+        Ty::U32 => t.utf8().and_then(|s| s.parse::<u32>().ok()).map(|n| Val::N(n as u64)),
+    }
 }
 #[derive(Clone, Copy, Debug, PartialEq, Eq, Hash, Serialize, Deserialize)]
 pub enum PosKind {
@@ -90,7 +107,8 @@ pub const NOCMD: &str = "nocmd";
 impl Named {
     pub fn to_p(&self) -> P {
         let n = self.names.clone();
-        let arg = |n: Names| P::Arg { names: n, ty: Ty::Os, adjacent: false, metavar: "ARG".into() };
+        let (ty, adjacent) = (self.ty, self.adjacent);
+        let arg = |n: Names| P::Arg { names: n, ty, adjacent, metavar: "ARG".into() };
         let p = match self.kind {
             Kind::Switch => P::Switch(n),
             Kind::Flag => P::Flag(n),
@@ -421,7 +439,7 @@ pub fn parse_level(l: &Level, anc: &[&Level], evs: &[Ev], env: &Env) -> Out {
                 i += 1;
             } else {
                 match evs.get(i + 1) {
-                    Some(Ev::Word(w)) => {
+                    Some(Ev::Word(w)) if !n.adjacent => {
                         occ[ix].push(w.clone());
                         i += 2;
                     }
@@ -447,7 +465,16 @@ pub fn parse_level(l: &Level, anc: &[&Level], evs: &[Ev], env: &Env) -> Out {
                 o.push(if n.kind.is_arg() { v } else { Tok::default() });
             }
         }
-        let strs: Vec<Val> = o.iter().map(|x| Val::S(x.clone())).collect();
+        let mut strs: Vec<Val> = vec![];
+        if n.kind.is_arg() {
+            for x in o.iter() {
+                match convert(n.ty, x) {
+                    Some(v) => strs.push(v),
+                    // present but invalid: the run fails
+                    None => return Out::Fail,
+                }
+            }
+        }
         let v = match n.kind {
             Kind::Switch => match o.len() {
                 0 => Val::B(false),
